@@ -50,18 +50,81 @@ def SplitLines(s):
     return s.splitlines()
 
 
+# _parse_directive_options: the SPLIT of the content into option block and body is under contract (the prefix of the function up to
+# `has_options_block = ...`); what the rest does with the option block (YAML / tokenizer / converters) is not, and callers see the
+# whole function through the assumed view below.
+@spec
+def IsOpt(s):
+    return s.lstrip().startswith(":")
+
+
+# index of the first line at or after i that is not an option line (`:key: value`, possibly indented)
+@spec(recursive=True, sig=(["list[str]", "int"], "int"), fuel=2)
+def Lead(L, i):
+    if i >= len(L):
+        return i
+    if not IsOpt(L[i]):
+        return i
+    return Lead(L, i + 1)
+
+
+fields("re:Match", _opaque="int")
+contract(
+    "ext:re.search",
+    types={"__params__": ["pattern", "string", "flags"], "pattern": "str", "string": "str", "flags": "int", "__default__flags": "0"},
+    requires=[], ensures=[], returns="Match | None", modifies=["fresh"], trusted=True,
+)
+for _m in ("start", "end"):
+    contract(
+        f"ext:Match.{_m}",
+        types={"__params__": ["self"], "self": "Match"},
+        requires=[], ensures=["result >= 0"], returns="int", modifies=[], pure=True, trusted=True,
+    )
+contract(
+    "ext:textwrap.dedent",
+    types={"__params__": ["text"], "text": "str"}, requires=[], ensures=[], returns="str", modifies=[], pure=True, trusted=True,
+)
 contract(
     f"{M}:_parse_directive_options",
+    until="has_options_block = options_block is not None",
+    callers=dict(
+        requires=[],
+        ensures=["fresh(result)"],
+        raises={"MarkupError": []},
+        modifies=["fresh"],
+        returns="_DirectiveOptions",
+    ),
     requires=[],
-    ensures=["fresh(result)"],
-    raises={"MarkupError": []},
+    ensures=[],
+    # (`content` is the text that came in; at_return(x) is the local x where the prefix ends)
+    cut_ensures=[
+        # content that opens with neither style is all body
+        "implies(not content.startswith('---') and not IsOpt(content), at_return(content) == content and at_return(options_block) is None)",
+        # `:key: value` style: the option block is exactly the leading run of option lines - no body line is taken, no option line
+        # is left - and the body is the remaining lines joined again
+        "implies(not content.startswith('---') and IsOpt(content),"
+        " at_return(content) == '\\n'.join(SplitLines(content)[Lead(SplitLines(content), 0):]) and at_return(options_block) is not None)",
+        # `---` style: an option block is always recognised
+        "implies(content.startswith('---'), at_return(options_block) is not None)",
+    ],
+    loops={"while content_lines": dict(
+        invariant=[
+            "len(yaml_lines) <= len(SplitLines(content))",
+            "content_lines == SplitLines(content)[len(yaml_lines):]",
+            "Lead(SplitLines(content), 0) == Lead(SplitLines(content), len(yaml_lines))",
+            "options_block is None",
+        ],
+        decreases="len(content_lines)",
+    )},
+    raises={},
     modifies=["fresh"],
-    types={"directive_class": "DirectiveClass", "additional_options": "OptionsMapping | None"},
-    returns="_DirectiveOptions",
-    trusted=True,
+    types={"directive_class": "DirectiveClass", "additional_options": "OptionsMapping | None", "options_block": "str | None",
+           "content_lines": "list[str]", "yaml_lines": "list[str]", "match": "Match | None"},
+    properties=["C08"],
 )
-assumed("_parse_directive_options", "returns a new _DirectiveOptions (content, options, warnings, has_options) or raises MarkupError; "
-        "nothing is assumed about how its `content` relates to the input (its own known findings C08-* live there)", "myst_parser")
+assumed("_parse_directive_options (callers' view)", "returns a new _DirectiveOptions (content, options, warnings, has_options) or raises MarkupError; "
+        "nothing is assumed about how its `content` relates to the input (the split itself is proved on the prefix; the known findings C08-* "
+        "are about what join / splitlines do to trailing blank lines)", "myst_parser")
 
 contract(
     f"{M}:parse_directive_text",
